@@ -73,6 +73,9 @@ pub enum Op {
     RemoveParent { ca: String, parent: String },
     DeleteCa { ca: String },
     AddCa { ca: String },
+    /// only the creation of the CA (one krill operation; `AddCa` also gives
+    /// it a publisher and a repository contact)
+    InitCa { ca: String },
     RollInit { ca: String },
     RollActivate { ca: String },
     Republish { force: bool },
@@ -326,6 +329,7 @@ impl World {
                 self.krill.ca_manager().delete_ca(&ca(c), &self.actor, &self.slow),
             ),
             Op::AddCa { ca: c } => OpOutcome::from_res(self.add_ca(c)),
+            Op::InitCa { ca: c } => OpOutcome::from_res(self.krill.ca_manager().init_ca(ca(c), &self.krill)),
             Op::RollInit { ca: c } => OpOutcome::from_res(
                 self.krill.ca_manager().ca_keyroll_init(
                     ca(c), chrono::Duration::seconds(0), &self.actor, &self.krill,
